@@ -182,7 +182,12 @@ def run(ctx):
                     ctx.count("swap_scenario:" + which)
             ctx.case(("swap", rep, K, W, T), nontrivial=res is not None)
 
-    for cfg in cfgs:
+    for ci, cfg in enumerate(cfgs):
+        if ctx.replay is None and ci % 3 == 0:
+            # call SEQUENCE: a K-sweep starts at one cluster — that call ends in a division by zero inside the index
+            # (K - 1 = 0) — and the next call, on the same data shape, must still report the right value
+            _r0, _t0, e0, _s0 = tu.execute(dict(cfg, K=1, limit=2), trace=False)
+            ctx.count("preceded_by_failing_K1_call:" + (type(e0).__name__ if e0 is not None else "returned"))
         res, tr, err, series = tu.execute(cfg, capture_kernel=False, record_states=False)
         if err is not None:
             ctx.count("runs_raised")
